@@ -175,6 +175,10 @@ def gen_modset(r, nmax=6, wild=False, allow_ties=True, exact=False):
 def fname(r, used):
     while True:
         f = "m%05x.so" % r.below(1 << 20)
+        if used and r.chance(1, 3):
+            # a name related to one already there (a shorter or longer stem, a tail of it): different files all the same
+            stem = r.choice(sorted(used))[:-3]
+            f = r.choice([stem[:r.range(1, len(stem) - 1)], stem + r.choice("x0a"), stem[1:], stem + ".so"]) + ".so"
         if f not in used:
             used.add(f)
             return f
@@ -256,6 +260,14 @@ def gen_sec_case(r):
             "run_as": run_as, "alt": alt, "dirsel": dirsel}
     if dirsel == "env" and run_as == "nobody" and r.chance(1, 3):
         case["padlen"] = r.choice([4060, 4070, 4077, 4080, 4084, 4086, 4090])
+    if run_as != "suid" and not case.get("padlen") and r.chance(1, 4):
+        # pdsh is started by bare name and PATH leads past a third party's look-alike that exec skips; often one module file
+        # belongs to that third party and everything else is clean, so that the outcome hangs on whose binary pdsh thinks it is
+        lk = {"elem": r.choice(["", ".", "rel", "abs"]), "owner": r.choice([OTHER, STRANGER]), "kind": r.choice(["file", "file", "dir"])}
+        case["lookup"] = lk
+        if r.chance(2, 3):
+            fl[0]["owner"], fl[0]["mode"] = lk["owner"], 0o644
+            case["chain"] = [[0, 0o755] for _ in chain]
     if r.chance(1, 8):
         # the module directory lies on a second file system whose root has the inode number of "/"; above the mount point
         # stands a world-writable directory without the sticky bit: the walk up the ancestors must cross the mount point
